@@ -32,17 +32,18 @@ Definition opt_str_eqb2 (a b : option str) : bool :=
 Definition is_some {A} (o : option A) : bool := match o with Some _ => true | None => false end.
 
 (* ---- HTML: (root tree, tags of self.stack top first, last_closed is not None, skip_depth,
-        _skip_tag if skip_depth > 0 else None) *)
-Definition html_obs := (node * list str * bool * nat * option str)%type.
+        _skip_tag if skip_depth > 0 else None, _HtmlTextExtractor(root)._get_node_text(root)) *)
+Definition html_obs := (node * list str * bool * nat * option str * str)%type.
 
 Definition html_case (remove void : list str) (c : list event * html_obs) : bool :=
-  let '(evs, (tree, stk, haslc, d, t)) := c in
+  let '(evs, (tree, stk, haslc, d, t, flat)) := c in
   let st := canon (html_build remove void evs) in
   node_eqb (tree_of (vis st)) tree &&
   list_eqb str_eqb (map f_tag (top (vis st) :: below (vis st))) stk &&
   Bool.eqb (is_some (lc (vis st))) haslc &&
   Nat.eqb (depth st) d &&
-  opt_str_eqb2 (stag st) t.
+  opt_str_eqb2 (stag st) t &&
+  str_eqb (flat_node (tree_of (vis st))) flat.
 
 (* ---- whitespace normalisation of a table cell:
         _normalize_ws(" ".join(cell).strip()) = " ".join(value.split()).strip() *)
